@@ -337,8 +337,12 @@ func stressUsable(c *ctx, nworkers int, dur time.Duration) rTrace {
 	var mu sync.Mutex
 	gate := make(chan struct{})
 	var started atomic.Int64
+	var burst atomic.Bool
 	pm, pool, stats := newStressPool(nworkers, func(t *f1testing.T) {
 		started.Add(1)
+		if burst.Load() {
+			return // a request of the warm-up burst: finishes at once
+		}
 		mu.Lock()
 		g := gate
 		mu.Unlock()
@@ -361,6 +365,14 @@ func stressUsable(c *ctx, nworkers int, dur time.Duration) rTrace {
 		g := gate
 		arrived.Store(0)
 		mu.Unlock()
+		// a burst of single requests on the idle pool first: all but one of the woken workers lose the race for the
+		// job and are somewhere in their take / park path when the full tick arrives
+		burst.Store(true)
+		for b := c.rng.Intn(4); b > 0; b-- {
+			pool.Trigger(workerCtx, 1)
+			requested++
+		}
+		burst.Store(false)
 		pool.Trigger(workerCtx, nworkers)
 		requested += int64(nworkers)
 		select {
@@ -407,9 +419,11 @@ func init() {
 		d := time.Duration(c.pick(400, 4000)) * time.Millisecond
 		for _, wk := range []int{2, 8} {
 			w.write(stressConservation(c, wk, 32, d))
-			w.write(stressUsable(c, wk, d))
+			w.write(stressUsable(c, wk, d*time.Duration(wk)/4))
 		}
 		w.write(stressConservation(c, 16, 3, d))
+		// many idle workers losing the race for single requests right before a full tick
+		w.write(stressUsable(c, 48, 4*d))
 		fmt.Println("c02 stress traces:", w.n)
 		return nil
 	})
